@@ -26,7 +26,9 @@ def gen(ref, tier, extra_names):
     try:
         universe.NAMES[:] = saved + extra_names
         for typ in ref.types:
-            vs = universe.value_sets(ref, typ, n_closed=4 if big else 3, n_digit=3 if big else 2, n_names=len(universe.NAMES) if big else 4,
+            small = tier == "c20"
+            vs = universe.value_sets(ref, typ, n_closed=4 if big else (2 if small else 3), n_digit=3 if big else (1 if small else 2),
+                                     n_names=len(universe.NAMES) if big else (2 if small else 4),
                                      search=False, aliases=False)
             # open placeholders: always include the separator name and the folder-like name
             for i, (k, p) in enumerate(ref.templates[typ]):
